@@ -1,11 +1,15 @@
 (* C11 -- proofs about the binary32 model of computeCellOrder (CellOrderFloat.v, Flocq).  Every lemma is closed by
-   Qed; the real-number axioms of the standard library (ClassicalDedekindReals.sig_forall_dec, sig_not_dec,
-   FunctionalExtensionality.functional_extensionality_dep) are inherited from Coq.Reals through Flocq. *)
+   Qed; the axioms of the standard library's real numbers (ClassicalDedekindReals.sig_forall_dec, sig_not_dec,
+   FunctionalExtensionality.functional_extensionality_dep, Classical_Prop.classic) are inherited from Coq.Reals through
+   Flocq -- the same four as the C06 float development, no other.
+   Practical note: never call lia / lra-on-Z in a context that contains `is_finite (fmul ...) = true` hypotheses (zify
+   tries to evaluate them and does not come back): the integer facts are derived first. *)
 From Coq Require Import ZArith Reals Psatz Lra Lia List Bool Permutation Sorted.
 From Flocq Require Import Core BinarySingleNaN.
 Import ListNotations.
-Require Import CV.Orient CV.FreeSpace CV.RowLeg CV.Circuit CV.Legalizer CV.LegalizerSoundProofs CV.LegalizerIdempotentProofs
-               CV.SpreadFloat CV.SpreadFloatProofs CV.CellOrderFloat.
+Require Import CV.Orient CV.FreeSpace CV.RowLeg CV.RowLegFixProofs CV.Circuit CV.CircuitProofs CV.Legalizer CV.LegalizerProofs CV.LegalizerAbacusProofs
+               CV.LegalizerSoundProofs CV.LegalizerTrivialProofs CV.LegalizerIdempotentProofs
+               CV.CellOrder CV.CellOrderProofs CV.SpreadFloat CV.SpreadFloatProofs CV.CellOrderFloat.
 Local Open Scope R_scope.
 
 Local Instance prec24' : Prec_gt_0 24 := p24.
@@ -122,8 +126,8 @@ Proof.
 Qed.
 
 (* ------------------------------------------------------------------ the binary32 operations compute key_R *)
-Lemma le_bpow127 : forall (r : R) (e : Z), (e <= 127)%Z -> Rabs r <= bpow radix2 e -> Rabs r <= bpow radix2 127.
-Proof. intros r e He H. eapply Rle_trans; [exact H|apply bpow_le; exact He]. Qed.
+Lemma le_bpow127 : forall (r : R) (e : Z), (e <=? 127)%Z = true -> Rabs r <= bpow radix2 e -> Rabs r <= bpow radix2 127.
+Proof. intros r e He H. eapply Rle_trans; [exact H|apply bpow_le; apply Z.leb_le; exact He]. Qed.
 
 (* (float)x for a finite double x of magnitude <= 2^127: the correctly rounded value, finite *)
 Lemma f_of_d_correct : forall x : f64, is_finite x = true -> Rabs (B2R x) <= bpow radix2 127 ->
@@ -147,7 +151,7 @@ Lemma f_of_d_one : B2R (f_of_d d_one) = 1 /\ is_finite (f_of_d d_one) = true.
 Proof.
   destruct d_one_correct as [O1 O2].
   destruct (f_of_d_correct d_one O2) as [C1 C2].
-  { rewrite O1, Rabs_R1. change 1 with (bpow radix2 0). apply bpow_le. lia. }
+  { rewrite O1, Rabs_R1. change 1 with (bpow radix2 0). apply bpow_le. discriminate. }
   split; [|exact C2]. rewrite C1, O1. apply rnd32_1.
 Qed.
 
@@ -193,43 +197,463 @@ Lemma cell_key_f_correct : forall (wx ww wy wh : f32) (c : cell),
 Proof.
   intros wx ww wy wh c Fx Fw Fy Fh Hwx Hww Hwy Hwh (Sx & Sy & Sw & Sh) t3 t4.
   assert (P24 : (2 ^ 20 <= 2 ^ 24)%Z) by (apply Z.pow_le_mono_r; lia).
-  destruct (f_of_Z_exact (ctx c) ltac:(lia)) as [Xv Xf]. destruct (f_of_Z_exact (cw c) ltac:(lia)) as [Wv Wf].
-  destruct (f_of_Z_exact (cty c) ltac:(lia)) as [Yv Yf]. destruct (f_of_Z_exact (ch c) ltac:(lia)) as [Hv Hf].
-  pose proof (IZR_abs_pow _ 20 ltac:(lia) Sx) as Bx. pose proof (IZR_abs_pow _ 20 ltac:(lia) Sw) as Bw.
-  pose proof (IZR_abs_pow _ 20 ltac:(lia) Sy) as By. pose proof (IZR_abs_pow _ 20 ltac:(lia) Sh) as Bh.
+  assert (Zx : (Z.abs (ctx c) <= 2 ^ 24)%Z) by lia. assert (Zw : (Z.abs (cw c) <= 2 ^ 24)%Z) by lia.
+  assert (Zy : (Z.abs (cty c) <= 2 ^ 24)%Z) by lia. assert (Zh : (Z.abs (ch c) <= 2 ^ 24)%Z) by lia.
+  assert (Fx24 : fmt32 (IZR (ctx c))) by (apply fmt32_IZR_small; exact Zx).
+  pose proof (IZR_abs_pow _ 20 ltac:(discriminate) Sx) as Bx. pose proof (IZR_abs_pow _ 20 ltac:(discriminate) Sw) as Bw.
+  pose proof (IZR_abs_pow _ 20 ltac:(discriminate) Sy) as By. pose proof (IZR_abs_pow _ 20 ltac:(discriminate) Sh) as Bh.
+  destruct (f_of_Z_exact (ctx c) Zx) as [Xv Xf]. destruct (f_of_Z_exact (cw c) Zw) as [Wv Wf].
+  destruct (f_of_Z_exact (cty c) Zy) as [Yv Yf]. destruct (f_of_Z_exact (ch c) Zh) as [Hv Hf].
   assert (B3 : Rabs (B2R wy * IZR (cty c)) <= bpow radix2 21).
   { rewrite Rabs_mult, E21. apply Rmult_le_compat; [apply Rabs_pos|apply Rabs_pos|exact Hwy|exact By]. }
   assert (B4 : Rabs (B2R wh * IZR (ch c)) <= bpow radix2 22).
   { rewrite Rabs_mult, E22. apply Rmult_le_compat; [apply Rabs_pos|apply Rabs_pos|exact Hwh|exact Bh]. }
-  assert (T3 : Rabs t3 <= bpow radix2 21) by (apply rnd32_abs_pow; [lia|exact B3]).
-  assert (T4 : Rabs t4 <= bpow radix2 22) by (apply rnd32_abs_pow; [lia|exact B4]).
+  assert (T3 : Rabs t3 <= bpow radix2 21) by (apply rnd32_abs_pow; [discriminate|exact B3]).
+  assert (T4 : Rabs t4 <= bpow radix2 22) by (apply rnd32_abs_pow; [discriminate|exact B4]).
   destruct (key_R_err (B2R ww) t3 t4 (ctx c) (cw c) Hww Sx Sw T3 T4) as (_ & Ba & Bb & Bc & _).
-  (* the four products *)
   destruct (fmul_correct wx (f_of_Z (ctx c)) Fx Xf) as [M1 M1f].
-  { rewrite Hwx, Xv, Rmult_1_l. apply (le_bpow127 _ 20); [lia|exact Bx]. }
-  rewrite Hwx, Xv, Rmult_1_l, (rnd32_id _ (fmt32_IZR_small (ctx c) ltac:(lia))) in M1.
+  { rewrite Hwx, Xv, Rmult_1_l. apply (le_bpow127 _ 20); [reflexivity|exact Bx]. }
+  rewrite Hwx, Xv, Rmult_1_l, (rnd32_id _ Fx24) in M1.
   destruct (fmul_correct ww (f_of_Z (cw c)) Fw Wf) as [M2 M2f].
-  { rewrite Wv. apply (le_bpow127 _ 20); [lia|]. rewrite Rabs_mult, <- (Rmult_1_l (bpow radix2 20)).
+  { rewrite Wv. apply (le_bpow127 _ 20); [reflexivity|]. rewrite Rabs_mult, <- (Rmult_1_l (bpow radix2 20)).
     apply Rmult_le_compat; [apply Rabs_pos|apply Rabs_pos|rewrite Rabs_pos_eq; lra|exact Bw]. }
   rewrite Wv in M2.
   destruct (fmul_correct wy (f_of_Z (cty c)) Fy Yf) as [M3 M3f].
-  { rewrite Yv. apply (le_bpow127 _ 21); [lia|exact B3]. }
+  { rewrite Yv. apply (le_bpow127 _ 21); [reflexivity|exact B3]. }
   rewrite Yv in M3. fold t3 in M3.
   destruct (fmul_correct wh (f_of_Z (ch c)) Fh Hf) as [M4 M4f].
-  { rewrite Hv. apply (le_bpow127 _ 22); [lia|exact B4]. }
+  { rewrite Hv. apply (le_bpow127 _ 22); [reflexivity|exact B4]. }
   rewrite Hv in M4. fold t4 in M4.
   (* the three sums *)
   destruct (fadd_correct _ _ M1f M2f) as [A1 A1f].
-  { rewrite M1, M2. apply (le_bpow127 _ 21); [lia|]. eapply Rle_trans; [apply Rabs_triang|].
+  { rewrite M1, M2. apply (le_bpow127 _ 21); [reflexivity|]. eapply Rle_trans; [apply Rabs_triang|].
     rewrite E21. lra. }
   rewrite M1, M2 in A1.
   destruct (fadd_correct _ _ A1f M3f) as [A2 A2f].
-  { rewrite A1, M3. apply (le_bpow127 _ 22); [lia|]. eapply Rle_trans; [apply Rabs_triang|].
+  { rewrite A1, M3. apply (le_bpow127 _ 22); [reflexivity|]. eapply Rle_trans; [apply Rabs_triang|].
     rewrite E22'. lra. }
   rewrite A1, M3 in A2.
   destruct (fadd_correct _ _ A2f M4f) as [A3 A3f].
-  { rewrite A2, M4. apply (le_bpow127 _ 23); [lia|]. eapply Rle_trans; [apply Rabs_triang|].
+  { rewrite A2, M4. apply (le_bpow127 _ 23); [reflexivity|]. eapply Rle_trans; [apply Rabs_triang|].
     rewrite E23. lra. }
   rewrite A2, M4 in A3.
   split; [exact A3f|]. split; [exact A3|]. split; [exact T3|exact T4].
 Qed.
+
+(* two cells of one row, float keys: both finite, STRICTLY ordered (by at least 1/16) *)
+Lemma cell_key_f_lt_in_row : forall (wx ww wy wh : f32) (ci cj : cell),
+  is_finite wx = true -> is_finite ww = true -> is_finite wy = true -> is_finite wh = true ->
+  B2R wx = 1 -> 0 <= B2R ww <= 1 -> Rabs (B2R wy) <= 2 -> Rabs (B2R wh) <= 4 ->
+  small_cell ci -> small_cell cj -> (0 < cw ci)%Z -> (0 < cw cj)%Z -> (ctx ci + cw ci <= ctx cj)%Z ->
+  cty ci = cty cj -> ch ci = ch cj ->
+  is_finite (cell_key_f wx ww wy wh ci) = true /\ is_finite (cell_key_f wx ww wy wh cj) = true /\
+  B2R (cell_key_f wx ww wy wh ci) + / 16 <= B2R (cell_key_f wx ww wy wh cj).
+Proof.
+  intros wx ww wy wh ci cj Fx Fw Fy Fh Hwx Hww Hwy Hwh Si Sj Wi Wj Hx Ey Eh.
+  pose proof Si as (Sxi & _ & Swi & _). pose proof Sj as (Sxj & _ & Swj & _).
+  assert (Wi' : (0 < cw ci <= 2 ^ 20)%Z) by lia. assert (Wj' : (0 < cw cj <= 2 ^ 20)%Z) by lia.
+  destruct (cell_key_f_correct wx ww wy wh ci Fx Fw Fy Fh Hwx Hww Hwy Hwh Si) as (Fi & Vi & T3 & T4).
+  destruct (cell_key_f_correct wx ww wy wh cj Fx Fw Fy Fh Hwx Hww Hwy Hwh Sj) as (Fj & Vj & _ & _).
+  split; [exact Fi|]. split; [exact Fj|]. rewrite Vi, Vj, <- Ey, <- Eh.
+  apply key_R_lt_in_row; assumption.
+Qed.
+
+(* ------------------------------------------------------------------ std::pair's order on finite keys *)
+Definition fkey_fin (k : fkey) : Prop := is_finite (fst k) = true.
+(* a <= b : not (b < a) *)
+Definition fpair_le (a b : fkey) : Prop :=
+  B2R (fst a) < B2R (fst b) \/ (B2R (fst a) = B2R (fst b) /\ (snd a <= snd b)%nat).
+
+Lemma Bltb_fin : forall a b : f32, is_finite a = true -> is_finite b = true ->
+  (Bltb a b = true <-> B2R a < B2R b) /\ (Bltb a b = false <-> B2R b <= B2R a).
+Proof.
+  intros a b Fa Fb. rewrite (Bltb_correct 24 128 a b Fa Fb).
+  destruct (Rlt_bool_spec (B2R a) (B2R b)) as [L|L]; split; split; intros H; try reflexivity; try discriminate; lra.
+Qed.
+
+Lemma fkey_ltb_true : forall a b, fkey_fin a -> fkey_fin b ->
+  (fkey_ltb a b = true <-> B2R (fst a) < B2R (fst b) \/ (B2R (fst a) = B2R (fst b) /\ (snd a < snd b)%nat)).
+Proof.
+  intros a b Fa Fb. unfold fkey_ltb.
+  destruct (Bltb_fin (fst a) (fst b) Fa Fb) as [T1 N1]. destruct (Bltb_fin (fst b) (fst a) Fb Fa) as [T2 N2].
+  rewrite orb_true_iff, andb_true_iff, negb_true_iff, Nat.ltb_lt, T1, N2. split.
+  - intros [H|[H1 H2]]; [left; exact H|].
+    destruct (Rle_lt_or_eq_dec _ _ H1) as [L|E]; [left; exact L|right; split; [exact E|exact H2]].
+  - intros [H|[H1 H2]]; [left; exact H|right; split; [rewrite H1; apply Rle_refl|exact H2]].
+Qed.
+
+Lemma fkey_ltb_false : forall a b, fkey_fin a -> fkey_fin b -> (fkey_ltb a b = false <-> fpair_le b a).
+Proof.
+  intros a b Fa Fb. pose proof (fkey_ltb_true a b Fa Fb) as T. unfold fpair_le. split.
+  - intros H. destruct (Rtotal_order (B2R (fst b)) (B2R (fst a))) as [L|[E|G]].
+    + left. exact L.
+    + right. split; [exact E|]. destruct (Nat.le_gt_cases (snd b) (snd a)) as [N|N]; [exact N|].
+      assert (X : fkey_ltb a b = true) by (apply T; right; split; [symmetry; exact E|exact N]). congruence.
+    + assert (X : fkey_ltb a b = true) by (apply T; left; exact G). congruence.
+  - intros H. destruct (fkey_ltb a b) eqn:E; [|reflexivity]. exfalso. apply (proj1 (fkey_ltb_true a b Fa Fb)) in E.
+    destruct H as [H|[H1 H2]]; destruct E as [E|[E1 E2]]; try lra. apply (Nat.lt_irrefl (snd a)).
+    eapply Nat.lt_le_trans; [exact E2|exact H2].
+Qed.
+
+Lemma fpair_le_trans : forall a b c, fpair_le a b -> fpair_le b c -> fpair_le a c.
+Proof.
+  unfold fpair_le. intros a b c [H|[H1 H2]] [K|[K1 K2]].
+  - left. lra.
+  - left. lra.
+  - left. lra.
+  - right. split; [lra|]. eapply Nat.le_trans; [exact H2|exact K2].
+Qed.
+
+(* ------------------------------------------------------------------ the insertion sort over float keys *)
+Lemma finsert_key_perm : forall p l, Permutation (finsert_key p l) (p :: l).
+Proof.
+  intros p l. induction l as [|q l IH]; cbn [finsert_key]; [apply Permutation_refl|].
+  destruct (fkey_ltb q p); [|apply Permutation_refl].
+  eapply Permutation_trans; [apply perm_skip; exact IH|apply perm_swap].
+Qed.
+
+Lemma fsort_keys_perm : forall l, Permutation (fsort_keys l) l.
+Proof.
+  intros l. induction l as [|p l IH]; cbn [fsort_keys fold_right]; [apply Permutation_refl|].
+  eapply Permutation_trans; [apply finsert_key_perm|apply perm_skip; exact IH].
+Qed.
+
+Lemma finsert_key_sorted : forall p l, fkey_fin p -> Forall fkey_fin l ->
+  StronglySorted fpair_le l -> StronglySorted fpair_le (finsert_key p l).
+Proof.
+  intros p l Fp. induction l as [|q l IH]; intros Fl S; cbn [finsert_key].
+  - constructor; [constructor|constructor].
+  - inversion S as [|q' l' Sl Fq]; subst. inversion Fl as [|q' l' Fq' Fl']; subst.
+    destruct (fkey_ltb q p) eqn:E.
+    + constructor; [apply IH; assumption|].
+      apply (Permutation_Forall (Permutation_sym (finsert_key_perm p l))). constructor; [|exact Fq].
+      apply (proj1 (fkey_ltb_true q p Fq' Fp)) in E. destruct E as [E|[E1 E2]]; [left; exact E|right; split; [exact E1|]].
+      apply Nat.lt_le_incl. exact E2.
+    + apply (proj1 (fkey_ltb_false q p Fq' Fp)) in E. constructor; [exact S|]. constructor; [exact E|].
+      eapply Forall_impl; [|exact Fq]. intros x Hx. exact (fpair_le_trans _ _ _ E Hx).
+Qed.
+
+Lemma fsort_keys_sorted : forall l, Forall fkey_fin l -> StronglySorted fpair_le (fsort_keys l).
+Proof.
+  intros l. induction l as [|p l IH]; intros Fl; cbn [fsort_keys fold_right]; [constructor|].
+  inversion Fl as [|p' l' Fp Fl']; subst. apply finsert_key_sorted; [exact Fp| |apply IH; exact Fl'].
+  apply (Permutation_Forall (Permutation_sym (fsort_keys_perm l))). exact Fl'.
+Qed.
+
+(* ------------------------------------------------------------------ computeCellOrder, binary32 *)
+Lemma keyed_f_indices : forall wx ww wy wh cells,
+  map snd (keyed_f wx ww wy wh cells) = seq 0 (length cells).
+Proof. intros. unfold keyed_f. apply map_snd_combine. rewrite map_length, seq_length. reflexivity. Qed.
+
+(* [no finiteness needed] a permutation of 0..n-1, whatever the keys (NaN and infinities included) *)
+Theorem compute_cell_order_f_perm : forall wx ww wy wh cells,
+  Permutation (compute_cell_order_f wx ww wy wh cells) (seq 0 (length cells)).
+Proof.
+  intros. unfold compute_cell_order_f. rewrite <- (keyed_f_indices wx ww wy wh cells).
+  apply Permutation_map. apply fsort_keys_perm.
+Qed.
+
+Lemma compute_cell_order_f_NoDup : forall wx ww wy wh cells, NoDup (compute_cell_order_f wx ww wy wh cells).
+Proof.
+  intros. eapply Permutation_NoDup; [apply Permutation_sym; apply compute_cell_order_f_perm|apply seq_NoDup].
+Qed.
+
+Lemma compute_cell_order_f_In : forall wx ww wy wh cells i,
+  In i (compute_cell_order_f wx ww wy wh cells) <-> (i < length cells)%nat.
+Proof.
+  intros. split; intros H.
+  - apply (Permutation_in _ (compute_cell_order_f_perm wx ww wy wh cells)) in H. apply in_seq in H. lia.
+  - apply (Permutation_in _ (Permutation_sym (compute_cell_order_f_perm wx ww wy wh cells))).
+    apply in_seq. lia.
+Qed.
+
+Lemma combine_map_seq_In {A B} (f : A -> B) (cells : list A) : forall s k i,
+  In (k, i) (combine (map f cells) (seq s (length cells))) ->
+  (s <= i)%nat /\ exists c, nth_error cells (i - s) = Some c /\ k = f c.
+Proof.
+  induction cells as [|c cells IH]; intros s k i H; cbn in H; [contradiction|].
+  destruct H as [H|H].
+  - injection H as <- <-. split; [lia|]. exists c. rewrite Nat.sub_diag. split; reflexivity.
+  - destruct (IH (S s) k i H) as (Hs & c' & Hc' & ->). split; [lia|]. exists c'. split; [|reflexivity].
+    replace (i - s)%nat with (S (i - S s)) by lia. exact Hc'.
+Qed.
+
+Lemma keyed_f_In : forall wx ww wy wh cells k i, In (k, i) (keyed_f wx ww wy wh cells) ->
+  exists c, nth_error cells i = Some c /\ k = cell_key_f wx ww wy wh c.
+Proof.
+  intros wx ww wy wh cells k i H. apply combine_map_seq_In in H as (_ & c & Hc & ->).
+  rewrite Nat.sub_0_r in Hc. exists c. split; [exact Hc|reflexivity].
+Qed.
+
+(* when every key is finite the result is THE sorted one: a strictly smaller float key comes first *)
+Theorem compute_cell_order_f_sorted : forall wx ww wy wh cells a b i j ci cj,
+  (forall c, In c cells -> is_finite (cell_key_f wx ww wy wh c) = true) ->
+  nth_error (compute_cell_order_f wx ww wy wh cells) a = Some i ->
+  nth_error (compute_cell_order_f wx ww wy wh cells) b = Some j ->
+  nth_error cells i = Some ci -> nth_error cells j = Some cj ->
+  B2R (cell_key_f wx ww wy wh ci) < B2R (cell_key_f wx ww wy wh cj) -> (a < b)%nat.
+Proof.
+  unfold compute_cell_order_f. intros wx ww wy wh cells a b i j ci cj Fin Ha Hb Hi Hj Hlt.
+  assert (Fk : Forall fkey_fin (keyed_f wx ww wy wh cells)).
+  { apply Forall_forall. intros [k n] Hk. apply keyed_f_In in Hk as (c & Hc & ->).
+    unfold fkey_fin. cbn [fst]. apply Fin. eapply nth_error_In; exact Hc. }
+  set (sl := fsort_keys (keyed_f wx ww wy wh cells)) in *.
+  apply nth_error_map_inv in Ha as ([ka ia] & Ea & Hia). apply nth_error_map_inv in Hb as ([kb ib] & Eb & Hib).
+  cbn [snd] in Hia, Hib. subst ia ib.
+  assert (Ka : ka = cell_key_f wx ww wy wh ci).
+  { pose proof (Permutation_in _ (fsort_keys_perm _) (nth_error_In _ _ Ea)) as H.
+    apply keyed_f_In in H as (c & Hc & ->). congruence. }
+  assert (Kb : kb = cell_key_f wx ww wy wh cj).
+  { pose proof (Permutation_in _ (fsort_keys_perm _) (nth_error_In _ _ Eb)) as H.
+    apply keyed_f_In in H as (c & Hc & ->). congruence. }
+  subst ka kb.
+  destruct (Nat.lt_ge_cases a b) as [L|L]; [exact L|exfalso].
+  assert (Hle : fpair_le (cell_key_f wx ww wy wh cj, j) (cell_key_f wx ww wy wh ci, i)).
+  { destruct (Nat.eq_dec a b) as [->|N].
+    - rewrite Ea in Eb. injection Eb as E1 E2. subst j. rewrite Hi in Hj. injection Hj as ->. lra.
+    - apply (sorted_nth fpair_le sl (fsort_keys_sorted _ Fk) b a); [lia|exact Eb|exact Ea]. }
+  unfold fpair_le in Hle. cbn [fst snd] in Hle. lra.
+Qed.
+
+(* ------------------------------------------------------------------ the call in Legalizer::run *)
+(* the four float arguments for parameters of the domain *)
+Lemma order_params_f : forall p, order_params_ok p ->
+  is_finite (f_of_d (opd_w p)) = true /\ is_finite (f_of_d (opd_y p)) = true /\ is_finite (f_of_d (opd_h p)) = true /\
+  0 <= B2R (f_of_d (opd_w p)) <= 1 /\ Rabs (B2R (f_of_d (opd_y p))) <= 2 /\ Rabs (B2R (f_of_d (opd_h p))) <= 4.
+Proof.
+  intros p (Fw & Fy & Fh & Hw & Hy & Hh).
+  destruct (f_of_d_unit _ Fw Hw) as [A1 A2].
+  assert (F2 : fmt32 2) by (change 2 with (bpow radix2 1); apply fmt32_bpow; discriminate).
+  assert (F4 : fmt32 4) by (change 4 with (bpow radix2 2); apply fmt32_bpow; discriminate).
+  assert (L2 : 2 <= bpow radix2 127) by (change 2 with (bpow radix2 1); apply bpow_le; discriminate).
+  assert (L4 : 4 <= bpow radix2 127) by (change 4 with (bpow radix2 2); apply bpow_le; discriminate).
+  destruct (f_of_d_abs _ 2 Fy F2 L2 Hy) as [B1 B2]. destruct (f_of_d_abs _ 4 Fh F4 L4 Hh) as [C1 C2].
+  repeat split; try assumption; lra.
+Qed.
+
+(* every key is FINITE on the domain *)
+Theorem cell_order_f_keys_finite : forall p c, order_params_ok p -> coords_small c ->
+  forall k, In k (leg_cells c) ->
+    is_finite (cell_key_f (f_of_d d_one) (f_of_d (opd_w p)) (f_of_d (opd_y p)) (f_of_d (opd_h p)) k) = true.
+Proof.
+  intros p c Hp Hs k Hk. unfold leg_cells in Hk. apply in_map_iff in Hk as (k0 & <- & Hk0).
+  destruct (order_params_f p Hp) as (Fw & Fy & Fh & Hw & Hy & Hh). destruct f_of_d_one as [O1 O2].
+  exact (proj1 (cell_key_f_correct _ _ _ _ _ O2 Fw Fy Fh O1 Hw Hy Hh (Hs k0 Hk0))).
+Qed.
+
+Lemma cell_order_f_NoDup : forall p c, NoDup (cell_order_f p c).
+Proof. intros. apply compute_cell_order_f_NoDup. Qed.
+
+Lemma cell_order_f_In : forall p c i, In i (cell_order_f p c) <-> (i < length (movable c))%nat.
+Proof. intros. unfold cell_order_f. rewrite compute_cell_order_f_In. unfold leg_cells. rewrite map_length. reflexivity. Qed.
+
+Theorem cell_order_f_perm : forall p c, Permutation (cell_order_f p c) (seq 0 (length (movable c))).
+Proof.
+  intros. unfold cell_order_f.
+  replace (length (movable c)) with (length (leg_cells c)) by (unfold leg_cells; apply map_length).
+  apply compute_cell_order_f_perm.
+Qed.
+
+(* what is needed of the circuit: movable cells of positive placed width and of one placed height *)
+Lemma cell_order_f_left_to_right_gen : forall p c,
+  (forall k, In k (movable c) -> (0 < cw (leg_cell_of k))%Z) ->
+  (forall ki kj, In ki (movable c) -> In kj (movable c) -> ch (leg_cell_of ki) = ch (leg_cell_of kj)) ->
+  order_params_ok p -> coords_small c -> order_left_to_right c (cell_order_f p c).
+Proof.
+  intros p c Hw Hh Hp Hs. split; [apply cell_order_f_NoDup|]. split; [apply cell_order_f_In|].
+  intros a b i j ki kj s Ha Hb Hi Hj _ (Yi & _) (Yj & _) Hx.
+  pose proof (nth_error_In _ _ Hi) as Iki. pose proof (nth_error_In _ _ Hj) as Ikj.
+  unfold cell_order_f in Ha, Hb.
+  apply (compute_cell_order_f_sorted _ _ _ _ _ a b i j (leg_cell_of ki) (leg_cell_of kj)
+           (cell_order_f_keys_finite p c Hp Hs) Ha Hb).
+  - unfold leg_cells. apply map_nth_error. exact Hi.
+  - unfold leg_cells. apply map_nth_error. exact Hj.
+  - destruct (order_params_f p Hp) as (Fw & Fy & Fh & Rw & Ry & Rh). destruct f_of_d_one as [O1 O2].
+    assert (Ey : cty (leg_cell_of ki) = cty (leg_cell_of kj)) by congruence.
+    destruct (cell_key_f_lt_in_row _ _ _ _ (leg_cell_of ki) (leg_cell_of kj) O2 Fw Fy Fh O1 Rw Ry Rh
+                (Hs ki Iki) (Hs kj Ikj) (Hw ki Iki) (Hw kj Ikj) Hx Ey (Hh ki kj Iki Ikj)) as (_ & _ & L).
+    lra.
+Qed.
+
+Theorem cell_order_f_left_to_right : forall p c rh,
+  rowhigh_design c rh -> order_params_ok p -> coords_small c -> order_left_to_right c (cell_order_f p c).
+Proof.
+  intros p c rh (_ & _ & _ & _ & Hmov). apply cell_order_f_left_to_right_gen.
+  - intros k Hk. destruct (Hmov k Hk) as (W & _). exact W.
+  - intros ki kj Hi Hj. destruct (Hmov ki Hi) as (_ & A & _). destruct (Hmov kj Hj) as (_ & B & _).
+    unfold leg_cell_of. cbn [ch]. congruence.
+Qed.
+
+(* ------------------------------------------------------------------ C11 with the binary32 order *)
+Local Open Scope Z_scope.
+
+Theorem legalize_float_fixpoint : forall p c rh,
+  rowhigh_design c rh -> legal c -> polarity_admits c -> order_params_ok p -> coords_small c ->
+  exists c', legalize_float p c = LegOk c' /\ rows c' = rows c /\ Forall2 (kept c) (cells c) (cells c').
+Proof.
+  intros p c rh Hd Hl Hpol Hp Hs. unfold legalize_float.
+  apply (legalize_circuit_fixpoint c rh); try assumption. exact (cell_order_f_left_to_right p c rh Hd Hp Hs).
+Qed.
+
+Theorem legalize_float_idempotent : forall p c rh,
+  rowhigh_design c rh -> legal c -> polarity_admits c -> order_params_ok p -> coords_small c ->
+  (forall k r, In k (movable c) -> In r (rows c) -> under r k -> seg_orientation (leg_cell_of k) r = c_o k) ->
+  legalize_float p c = LegOk c.
+Proof.
+  intros p c rh Hd Hl Hpol Hp Hs Ho. unfold legalize_float.
+  apply (legalize_circuit_idempotent c rh); try assumption. exact (cell_order_f_left_to_right p c rh Hd Hp Hs).
+Qed.
+
+(* second legalization with the binary32 order, whatever the order of the first one *)
+Theorem legalize_float_after_any : forall p c rh order c1,
+  rowhigh_design c rh -> legalize_circuit c order = LegOk c1 -> order_params_ok p -> coords_small c1 ->
+  legalize_float p c1 = LegOk c1.
+Proof.
+  intros p c rh order c1 Hd Hc1 Hp Hs. unfold legalize_float. apply (legalize_circuit_twice c rh order _ c1 Hd Hc1).
+  apply cell_order_f_left_to_right_gen; [| |exact Hp|exact Hs].
+  - intros k Hk. apply (legalize_output_dims c rh order c1 Hd Hc1 k Hk).
+  - intros ki kj Hi Hj. destruct (legalize_output_dims c rh order c1 Hd Hc1 ki Hi) as [_ A].
+    destruct (legalize_output_dims c rh order c1 Hd Hc1 kj Hj) as [_ B]. congruence.
+Qed.
+
+Theorem legalize_float_twice : forall p0 p c rh c1,
+  rowhigh_design c rh -> legalize_float p0 c = LegOk c1 -> order_params_ok p -> coords_small c1 ->
+  legalize_float p c1 = LegOk c1.
+Proof. intros p0 p c rh c1 Hd Hc1. exact (legalize_float_after_any p c rh _ c1 Hd Hc1). Qed.
+
+(* ------------------------------------------------------------------ binary64 constants *)
+Local Open Scope R_scope.
+Local Instance prec53' : Prec_gt_0 53 := p53.
+Local Instance valid64' : Valid_exp (FLT_exp (-1074) 53) := FLT_exp_valid (-1074) 53.
+Local Instance prec53_1024' : Prec_lt_emax 53 1024 := p53_1024.
+
+(* m * 2^e for |m| < 2^53, -1074 <= e <= 0 is a binary64 value: binary_normalize is exact on it *)
+Lemma d_of_me_exact : forall m e : Z, (Z.abs m < 2 ^ 53)%Z -> (-1074 <= e <= 0)%Z ->
+  let x : f64 := @binary_normalize 53 1024 p53 p53_1024 mode_NE m e false in
+  B2R x = IZR m * bpow radix2 e /\ is_finite x = true.
+Proof.
+  intros m e Hm He x.
+  pose proof (binary_normalize_correct 53 1024 p53 p53_1024 mode_NE m e false) as C. cbv zeta in C. fold x in C.
+  assert (G : generic_format radix2 (FLT_exp (-1074) 53) (F2R (Float radix2 m e))).
+  { apply generic_format_FLT. exists (Float radix2 m e); [reflexivity|exact Hm|cbn; lia]. }
+  change (SpecFloat.fexp 53 1024) with (FLT_exp (-1074) 53) in C.
+  rewrite (round_generic radix2 (FLT_exp (-1074) 53) _ _ G) in C.
+  assert (B : Rabs (F2R (Float radix2 m e)) < bpow radix2 1024).
+  { unfold F2R. cbn [Fnum Fexp]. rewrite Rabs_mult, (Rabs_pos_eq (bpow radix2 e)) by apply bpow_ge_0.
+    apply Rle_lt_trans with (Rabs (IZR m) * 1).
+    - apply Rmult_le_compat_l; [apply Rabs_pos|]. change 1 with (bpow radix2 0). apply bpow_le. lia.
+    - rewrite Rmult_1_r, <- abs_IZR. apply Rlt_trans with (IZR (2 ^ 53)); [apply IZR_lt; exact Hm|].
+      rewrite (IZR_Zpower radix2) by lia. apply bpow_lt. lia. }
+  rewrite (Rlt_bool_true _ _ B) in C. destruct C as [C1 [C2 _]]. split; [exact C1|exact C2].
+Qed.
+
+Lemma d_of_Z_exact : forall z : Z, (Z.abs z < 2 ^ 53)%Z -> B2R (d_of_Z z) = IZR z /\ is_finite (d_of_Z z) = true.
+Proof.
+  intros z Hz. destruct (d_of_me_exact z 0 Hz ltac:(lia)) as [A B]. split; [|exact B].
+  unfold d_of_Z. rewrite A. cbn [bpow]. ring.
+Qed.
+
+Lemma dhalf_exact : B2R dhalf = / 2 /\ is_finite dhalf = true.
+Proof.
+  destruct (d_of_me_exact 1 (-1) ltac:(reflexivity) ltac:(lia)) as [A B]. split; [|exact B].
+  unfold dhalf. rewrite A. change (bpow radix2 (-1)) with (/ 2). ring.
+Qed.
+
+Lemma Dleb_true_le : forall a b : f64, is_finite a = true -> is_finite b = true ->
+  Bleb a b = true -> B2R a <= B2R b.
+Proof.
+  intros a b Fa Fb H. rewrite (Bleb_correct 53 1024 a b Fa Fb) in H.
+  destruct (Rle_bool_spec (B2R a) (B2R b)); [assumption|discriminate].
+Qed.
+
+(* a boolean test of the parameter domain (evaluated by vm_compute on concrete doubles) and its meaning *)
+Definition order_params_okb (p : order_params_d) : bool :=
+  is_finite (opd_w p) && is_finite (opd_y p) && is_finite (opd_h p) &&
+  Bleb (d_of_Z 0) (opd_w p) && Bleb (opd_w p) (d_of_Z 1) &&
+  Bleb (d_of_Z (-2)) (opd_y p) && Bleb (opd_y p) (d_of_Z 2) &&
+  Bleb (d_of_Z (-4)) (opd_h p) && Bleb (opd_h p) (d_of_Z 4).
+
+Lemma order_params_okb_sound : forall p, order_params_okb p = true -> order_params_ok p.
+Proof.
+  intros p H. unfold order_params_okb in H.
+  apply andb_prop in H as [H Lh4]. apply andb_prop in H as [H Lh4']. apply andb_prop in H as [H Ly2].
+  apply andb_prop in H as [H Ly2']. apply andb_prop in H as [H Lw1]. apply andb_prop in H as [H Lw0].
+  apply andb_prop in H as [H Fh]. apply andb_prop in H as [Fw Fy].
+  destruct (d_of_Z_exact 0 ltac:(reflexivity)) as [V0 F0]. destruct (d_of_Z_exact 1 ltac:(reflexivity)) as [V1 F1].
+  destruct (d_of_Z_exact 2 ltac:(reflexivity)) as [V2 F2]. destruct (d_of_Z_exact (-2) ltac:(reflexivity)) as [W2 G2].
+  destruct (d_of_Z_exact 4 ltac:(reflexivity)) as [V4 F4]. destruct (d_of_Z_exact (-4) ltac:(reflexivity)) as [W4 G4].
+  pose proof (Dleb_true_le _ _ F0 Fw Lw0) as A1. pose proof (Dleb_true_le _ _ Fw F1 Lw1) as A2.
+  pose proof (Dleb_true_le _ _ G2 Fy Ly2') as A3. pose proof (Dleb_true_le _ _ Fy F2 Ly2) as A4.
+  pose proof (Dleb_true_le _ _ G4 Fh Lh4') as A5. pose proof (Dleb_true_le _ _ Fh F4 Lh4) as A6.
+  rewrite V0 in A1. rewrite V1 in A2. rewrite W2 in A3. rewrite V2 in A4. rewrite W4 in A5. rewrite V4 in A6.
+  unfold order_params_ok. repeat split; try assumption; apply Rabs_le; lra.
+Qed.
+
+(* ------------------------------------------------------------------ the bound on orderingHeight is forced *)
+Local Open Scope Z_scope.
+(* w_tie satisfies every hypothesis of legalize_float_idempotent about the circuit (row height 2^20 - 1) *)
+Lemma w_tie_hyps : fixpoint_hyps w_tie 1048575 /\ coords_small w_tie.
+Proof.
+  set (k1 := tie_cell 10). set (k2 := tie_cell 9).
+  assert (Hmv : forall k, In k (movable w_tie) -> k = k1 \/ k = k2).
+  { intros k Hk. unfold movable in Hk. apply filter_In in Hk as [Hk _]. cbn in Hk. intuition. }
+  assert (Hpl : forall k, k = k1 \/ k = k2 ->
+            maxX (placement_of k) - minX (placement_of k) = 1 /\ maxY (placement_of k) - minY (placement_of k) = 1048575).
+  { intros k [-> | ->]; vm_compute; split; reflexivity. }
+  assert (Hso : forall k r, k = k1 \/ k = k2 -> In r (rows w_tie) -> seg_orientation (leg_cell_of k) r = c_o k).
+  { intros k r Hk [<-|[]]. destruct Hk as [-> | ->]; reflexivity. }
+  split; [split; [|split; [apply legalb_correct; vm_compute; reflexivity|split]]|].
+  - split; [lia|]. split; [intros r [<-|[]]; reflexivity|]. split; [cbn; tauto|]. split; [intros r [<-|[]]; reflexivity|].
+    intros k Hk. destruct (Hpl k (Hmv k Hk)) as [A B]. rewrite A, B.
+    destruct (Hmv k Hk) as [-> | ->]; (split; [lia|split; [lia|right; reflexivity]]).
+  - intros k r Hk Hr _. rewrite (Hso k r (Hmv k Hk) Hr). destruct (Hmv k Hk) as [-> | ->]; discriminate.
+  - intros k r Hk Hr _. exact (Hso k r (Hmv k Hk) Hr).
+  - intros k Hk. destruct (Hmv k Hk) as [-> | ->]; vm_compute; repeat split; discriminate.
+Qed.
+
+(* [R] orderingHeight = 8 (LegalizationParameters::check accepts any value): a legal row-high placement with
+   coordinates <= 2^20 in magnitude, every other hypothesis of legalize_float_idempotent satisfied, whose two float
+   keys are EQUAL (both 8388610 = 2^23 + 2, finite); the index decides, the cell on the right comes first and the
+   legalizer run with the binary32 order moves the other one (x = 9 becomes x = 11) *)
+Theorem legalize_float_order_refuted :
+  exists c p c', fixpoint_hyps c 1048575 /\ coords_small c /\
+    is_finite (opd_w p) = true /\ is_finite (opd_y p) = true /\ is_finite (opd_h p) = true /\
+    (0 <= B2R (opd_w p) <= 1)%R /\ B2R (opd_y p) = 0%R /\ B2R (opd_h p) = 8%R /\
+    map B2SF (map (cell_key_f (f_of_d d_one) (f_of_d (opd_w p)) (f_of_d (opd_y p)) (f_of_d (opd_h p))) (leg_cells c))
+      = [SpecFloat.S754_finite false 8388610 0; SpecFloat.S754_finite false 8388610 0] /\
+    map c_x (cells c) = [10; 9] /\ cell_order_f p c = [0%nat; 1%nat] /\
+    legalize_float p c = LegOk c' /\ map c_x (cells c') = [10; 11].
+Proof.
+  exists w_tie, p_tie. eexists.
+  destruct w_tie_hyps as [H1 H2]. destruct dhalf_exact as [Vw Fw].
+  destruct (d_of_Z_exact 0 ltac:(reflexivity)) as [V0 F0]. destruct (d_of_Z_exact 8 ltac:(reflexivity)) as [V8 F8].
+  split; [exact H1|]. split; [exact H2|]. cbn [p_tie opd_w opd_y opd_h].
+  split; [exact Fw|]. split; [exact F0|]. split; [exact F8|].
+  split; [rewrite Vw; lra|]. split; [exact V0|]. split; [exact V8|].
+  split; [vm_compute; reflexivity|]. split; [reflexivity|]. split; [vm_compute; reflexivity|].
+  split; [vm_compute; reflexivity|]. reflexivity.
+Qed.
+
+(* the circuits of the non-vacuity examples are inside the coordinate domain: a boolean test and its meaning *)
+Definition small_cellb (c : cell) : bool :=
+  (Z.abs (ctx c) <=? 2 ^ 20) && (Z.abs (cty c) <=? 2 ^ 20) && (Z.abs (cw c) <=? 2 ^ 20) && (Z.abs (ch c) <=? 2 ^ 20).
+Definition coords_smallb (c : circuit) : bool := forallb small_cellb (leg_cells c).
+
+Lemma coords_smallb_sound : forall c, coords_smallb c = true -> coords_small c.
+Proof.
+  intros c H k Hk. unfold coords_smallb in H. rewrite forallb_forall in H.
+  assert (Hin : In (leg_cell_of k) (leg_cells c)) by (unfold leg_cells; apply in_map; exact Hk).
+  specialize (H _ Hin). unfold small_cellb in H.
+  apply andb_prop in H as [H H4]. apply andb_prop in H as [H H3]. apply andb_prop in H as [H1 H2].
+  apply Z.leb_le in H1, H2, H3, H4. unfold small_cell. tauto.
+Qed.
+
+Print Assumptions key_R_err.
+Print Assumptions cell_key_f_correct.
+Print Assumptions compute_cell_order_f_perm.
+Print Assumptions compute_cell_order_f_sorted.
+Print Assumptions cell_order_f_left_to_right.
+Print Assumptions legalize_float_fixpoint.
+Print Assumptions legalize_float_idempotent.
+Print Assumptions legalize_float_twice.
+Print Assumptions legalize_float_order_refuted.
